@@ -306,3 +306,102 @@ def check_descriptions(ctx, rep, rule=RULE + '.M36'):
             rep.holds(rule, f, 'def ' + f.name, 'on {} evaluations of model {} descriptions (two iteration orders of sets) every well-formed text gives exactly the automaton it describes and each of the {} single-fault texts is rejected with an exception'.format(cases, kind, rejected // 2))
             n_ok += 1
     return n_ok
+
+
+# ---- Chomsky normal form test -----------------------------------------------------------------------------------------------------------
+
+_CNF_GRAMMARS = {
+    # name: (rules, is it in Chomsky normal form?)
+    'S -> AB | a; A -> a; B -> b': ([('S', ['AB', 'a']), ('A', ['a']), ('B', ['b'])], True),
+    'S -> AB | eps; A -> a; B -> b': ([('S', ['AB', '']), ('A', ['a']), ('B', ['b'])], True),
+    'S -> a': ([('S', ['a'])], True),
+    'S -> eps': ([('S', [''])], True),
+    'S -> AB | eps; A -> a | eps; B -> b (an epsilon rule after the one of S)': ([('S', ['AB', '']), ('A', ['a', '']), ('B', ['b'])], False),
+    'S -> AB; A -> eps | a; B -> b (an epsilon rule before any of S is missing)': ([('S', ['AB']), ('A', ['', 'a']), ('B', ['b'])], False),
+    'A -> eps listed first: A -> eps | a; S -> AB | eps; B -> b, start S': ([('A', ['', 'a']), ('S', ['AB', '']), ('B', ['b'])], False),
+    'S -> ABB | AB; A -> a; B -> b (three variables)': ([('S', ['ABB', 'AB']), ('A', ['a']), ('B', ['b'])], False),
+    'S -> AB; A -> a; B -> ABAB (four variables)': ([('S', ['AB']), ('A', ['a']), ('B', ['ABAB', 'b'])], False),
+    'S -> A; A -> a (unit rule)': ([('S', ['A']), ('A', ['a'])], False),
+    'S -> aB; B -> b (terminal next to a variable)': ([('S', ['aB']), ('B', ['b'])], False),
+    'S -> Ab; A -> a (variable next to a terminal)': ([('S', ['Ab']), ('A', ['a'])], False),
+    'S -> ab (two terminals)': ([('S', ['ab'])], False),
+    'S -> abc (three terminals)': ([('S', ['abc'])], False),
+    'S -> AS | a; A -> a (start variable on a right-hand side)': ([('S', ['AS', 'a']), ('A', ['a'])], False),
+    'S -> AB; A -> a; B -> SA | b (start variable on a later right-hand side)': ([('S', ['AB']), ('A', ['a']), ('B', ['SA', 'b'])], False),
+    'S -> AB; A -> a; B -> b | BA | c (last rule fine, a middle one too)': ([('S', ['AB']), ('A', ['a']), ('B', ['b', 'BA', 'c'])], True),
+    'S -> AB | aa; A -> a; B -> b (a bad rule in the middle)': ([('S', ['AB', 'aa', 'a']), ('A', ['a']), ('B', ['b'])], False),
+}
+
+
+def check_is_chomsky(ctx, rep, f=None, rule=RULE + '.M37'):
+    """CFG.is_chomsky on model grammars: True exactly when every rule is A -> BC (B, C variables other than the start
+    variable), A -> a, or S -> epsilon for the start variable S.  The models have the offending rule first, in the middle and last,
+    right-hand sides of every shape up to length four, and epsilon rules of other variables before and after the one of S."""
+    from .small_models2 import _grammar
+    if f is None:
+        f = ctx.prog.func('cfg.CFG.is_chomsky')
+    cases = 0
+    try:
+        for name, (rules, want) in _CNF_GRAMMARS.items():
+            for order in ('asc', 'desc'):
+                G = _grammar(rules)
+                G._f['epsilon'] = T('ε')
+                it = _interp(ctx, order, classes={'Variable': lambda x: V(str(x)), 'Terminal': lambda x: T(str(x))})
+                try:
+                    got = it.call(f, [G])
+                except Raised as ex:
+                    if ex.name in ('TypeError', 'AttributeError'):
+                        raise Unsupported('the evaluator met a {} it cannot attribute to the code'.format(ex.name))
+                    rep.violates(rule, f, 'def ' + f.name, 'raises {} on the grammar {}'.format(ex.name, name))
+                    return
+                if not isinstance(got, bool):
+                    raise Unsupported('the answer is not a boolean')
+                cases += 1
+                if got != want:
+                    rep.violates(rule, f, 'def ' + f.name, 'the grammar {} is reported {} Chomsky normal form although it is {}'.format(name, 'in' if got else 'not in', 'in it' if want else 'not'))
+                    return
+    except (Unsupported, RecursionError) as e:
+        rep.undecided(rule, f, 'def ' + f.name, 'outside the evaluator: {}'.format(e))
+        return
+    rep.holds(rule, f, 'def ' + f.name, 'on {} evaluations ({} model grammars, two iteration orders of sets) the answer is True exactly for the grammars whose rules are all A -> BC without the start variable, A -> a, or S -> epsilon'.format(cases, len(_CNF_GRAMMARS)))
+
+
+# ---- the simplifier on model expressions --------------------------------------------------------------------------------------------------
+
+def check_simplify_models(ctx, rep, f=None, rule=RULE + '.M38'):
+    """regexp_simplify on the model expressions of M22 (among them expressions over the LETTERS 0 and 1, whose printed form
+    coincides with the constants): the result denotes the same words up to length 3 (set semantics computed by the analyser) and
+    the argument is untouched.  The Kleene-algebra rule M3 treats letters as free variables and cannot see a decision taken on
+    the printed form of a subexpression; this model can."""
+    from .small_models2 import _model_regexps, _rx, _rx_lang, _rx_str, _rx_tuple, _RX_CLASSES
+    if f is None:
+        f = ctx.prog.func('regexp_algorithms.regexp_simplify')
+    cases = 0
+    try:
+        for t in _model_regexps():
+            r = _rx(t)
+            it = _interp(ctx, 'asc', classes=dict(_RX_CLASSES))
+            it.real_classes = False
+            it.superclasses = {k: ('Regexp',) for k in ('Zero', 'One', 'Symbol', 'Iteration', 'Sum', 'Concat')}
+            try:
+                got = it.call(f, [r])
+            except Raised as ex:
+                if ex.name in ('TypeError', 'AttributeError'):
+                    raise Unsupported('the evaluator met a {} it cannot attribute to the code'.format(ex.name))
+                rep.violates(rule, f, 'def ' + f.name, 'raises {} on the expression {}'.format(ex.name, _rx_str(t)))
+                return
+            cases += 1
+            if _rx_tuple(r) != t:
+                rep.violates(rule, f, 'def ' + f.name, 'the expression {} handed in is modified'.format(_rx_str(t)))
+                return
+            t1 = _rx_tuple(got)
+            want, have = _rx_lang(t, 3), _rx_lang(t1, 3)
+            if want != have:
+                extra, missing = sorted(have - want), sorted(want - have)
+                rep.violates(rule, f, 'def ' + f.name, 'the expression {} (letters 0 / 1 are symbols here) is simplified to {}, which {}'.format(
+                    _rx_str(t), _rx_str(t1), 'also denotes {!r}'.format(extra[0]) if extra else 'no longer denotes {!r}'.format(missing[0])))
+                return
+    except (Unsupported, RecursionError) as e:
+        rep.undecided(rule, f, 'def ' + f.name, 'outside the evaluator: {}'.format(e))
+        return
+    rep.holds(rule, f, 'def ' + f.name, 'on {} model expressions (twelve of them over the letters 0 and 1, which print like the constants) the simplified expression denotes the same words up to length 3 and the argument is untouched'.format(cases))
